@@ -119,6 +119,9 @@ func (self Value) GetByPath(pathes ...Path) Value {
 		switch path.t {
 		case PathFieldId:
 			id := path.id()
+			if desc.Type() != thrift.STRUCT {
+				return errValue(meta.ErrDismatchType, fmt.Sprintf("%dth path is a field id, but the descriptor is %s", i, desc.Type()), nil)
+			}
 			f := desc.Struct().FieldById(id)
 			if f == nil {
 				return errValue(meta.ErrUnknownField, fmt.Sprintf("field id %d is not defined in IDL", id), nil)
@@ -128,6 +131,9 @@ func (self Value) GetByPath(pathes ...Path) Value {
 			isList = tt == thrift.LIST
 		case PathFieldName:
 			id := path.str()
+			if desc.Type() != thrift.STRUCT {
+				return errValue(meta.ErrDismatchType, fmt.Sprintf("%dth path is a field name, but the descriptor is %s", i, desc.Type()), nil)
+			}
 			f := desc.Struct().FieldByKey(id)
 			if f == nil {
 				return errValue(meta.ErrUnknownField, fmt.Sprintf("field name '%s' is not defined in IDL", id), nil)
